@@ -393,6 +393,42 @@ def run(ctx):
                    f'a task taken from assigned_tasks may be in {sorted(member - some_v)} (a prefilled task redirected to this worker stays Retracting until the source answers), where rv_id() is None: the unwrap panics in the scheduler', b_.loc(unw[0]))
     ctx.note('assigned_tasks_unwrapping_consumers', ncons)
 
+    # ---- R09.12 hypothetical (query) workers never key a panicking lookup into the registries of real workers
+    ctx.rule('R09.12', 'functions that accept `custom_workers` (the fake workers of a new-worker query) must not use a value derived from them as the key of a panicking lookup into a Core registry (worker_groups.get(..).unwrap(), WorkerMap::get_worker): fake workers and their groups are registered nowhere')
+    GETS = ('HashMap::get', 'HashMap::get_mut', 'BTreeMap::get', 'BTreeMap::get_mut')
+    UNW2 = ('Option::unwrap', 'Option::expect')
+    nfun = 0
+    for p_, b_ in prog.bodies.items():
+        if not p_.startswith(T + 'scheduler::') or is_test_util(p_) or '::tests::' in p_ or b_.kind not in ('fn', 'method'):
+            continue
+        params = [l_ for l_ in range(1, b_.argc + 1) if 'Option<&[tako::internal::server::worker::Worker]>' in b_.locals[l_][0].replace("'_ ", '')]
+        if not params:
+            continue
+        nfun += 1
+        P_ = set(params)
+        bad = []
+        for bi_, t_, c_ in b_.calls():
+            if bi_ not in b_.reachable():
+                continue
+            if (c_ or '').endswith(UNW2):
+                l_ = op_local(t_['args'][0])
+                if l_ is None:
+                    continue
+                for x_ in b_.derived_from(l_, through_mutation=False):
+                    for d_ in b_.defs().get(x_, ()):
+                        if d_[1] == 'call' and (callee_of(d_[2]) or '').endswith(GETS) and len(d_[2]['args']) > 1:
+                            k_ = op_local(d_[2]['args'][1])
+                            recv_ = op_local(d_[2]['args'][0])
+                            if k_ is not None and P_ & b_.derived_from(k_, through_mutation=False) and not (recv_ is not None and P_ & b_.derived_from(recv_, through_mutation=False)):
+                                bad.append((bi_, 'unwrap of a registry lookup'))
+            if (c_ or '') in (WORKERMAP + 'get_worker', WORKERMAP + 'get_worker_mut'):
+                k_ = op_local(t_['args'][1]) if len(t_['args']) > 1 else None
+                if k_ is not None and P_ & b_.derived_from(k_, through_mutation=False):
+                    bad.append((bi_, 'WorkerMap::get_worker'))
+        ctx.ob('R09.12', f'{p_.split("::")[-1]}|custom workers do not key a panicking registry lookup', not bad,
+               f'{p_.split("::")[-1]}: a key derived from `custom_workers` reaches {bad[0][1] if bad else "no panicking lookup"} (a new-worker query with a waiting multi-node task and free real workers that cannot host it panics the server on every autoalloc tick)', b_.loc(bad[0][0]) if bad else b_.loc())
+    ctx.floor('R09.12', nfun, 2, 'scheduler functions taking custom_workers')
+
     # ---- R09.6 / R09.7
     ctx.rule('R09.6', 'no panicking task lookup inside a loop whose body may remove tasks from the core (ids collected before the loop can be gone when their turn comes)')
     ctx.rule('R09.7', 'TaskQueue::remove asserts membership in one arm: every call site must be guarded by a test that implies the task is queue-resident (or no arm may diverge)')
